@@ -1,6 +1,8 @@
 package evaluator
 
 import (
+	"sort"
+
 	"github.com/Syuparn/pangaea/ast"
 	"github.com/Syuparn/pangaea/object"
 )
@@ -11,7 +13,10 @@ func evalKwargs(
 ) (*object.PanObj, *object.PanErr) {
 	pairMap := map[object.SymHash]object.Pair{}
 
-	for k, v := range kwargs {
+	// NOTE: evaluate kwargs in the order written
+	// (otherwise order and duplicated param choice depend on random map iteration order)
+	for _, k := range sortedKwargIdents(kwargs) {
+		v := kwargs[k]
 		val := Eval(v, env)
 
 		if err, ok := val.(*object.PanErr); ok {
@@ -31,4 +36,29 @@ func evalKwargs(
 	obj, _ := (object.PanObjInstancePtr(&pairMap)).(*object.PanObj)
 
 	return obj, nil
+}
+
+func sortedKwargIdents(kwargs map[*ast.Ident]ast.Expr) []*ast.Ident {
+	idents := make([]*ast.Ident, 0, len(kwargs))
+	for k := range kwargs {
+		idents = append(idents, k)
+	}
+
+	sort.Slice(idents, func(i, j int) bool {
+		si, sj := idents[i].Src, idents[j].Src
+		if si == nil || sj == nil {
+			if si == nil && sj == nil {
+				return idents[i].Value < idents[j].Value
+			}
+			return si == nil
+		}
+		if si.Pos.Line != sj.Pos.Line {
+			return si.Pos.Line < sj.Pos.Line
+		}
+		if si.Pos.Column != sj.Pos.Column {
+			return si.Pos.Column < sj.Pos.Column
+		}
+		return idents[i].Value < idents[j].Value
+	})
+	return idents
 }
